@@ -415,7 +415,7 @@ fn gen_valid(r: &mut Rng) -> (Document, Vec<ObjectId>) {
         let cf = dict(vec![("StdCF", Object::Dictionary(dict(vec![("Type", name("CryptFilter")), ("CFM", name(*g.r.pick(&["V2", "AESV2", "AESV3", "Identity", "None"])))]))),
                            ("Other", Object::Dictionary(dict(vec![("Length", Object::Integer(16))])))]);
         let e = g.add(Object::Dictionary(dict(vec![("Filter", name("Standard")), ("V", Object::Integer(4)), ("CF", Object::Dictionary(cf))])));
-        g.doc.trailer.set("Encrypt", rf(e));
+        if g.r.chance(1, 4) { let d = g.doc.objects.get(&e).cloned().unwrap(); g.doc.trailer.set("Encrypt", d); } else { g.doc.trailer.set("Encrypt", rf(e)); }
     }
     (g.doc, leaves)
 }
@@ -584,6 +584,10 @@ fn analyse(doc: &Document, targets: &[ObjectId]) -> Hazard {
 
 const FUEL: u64 = 5000;
 const TIMEOUT_MS: u64 = 1500;
+/// documents per run whose hang / abort is localised field by field (each costs a few timeouts)
+const MAX_LOCALISED: u64 = 6;
+/// dead (hung / aborted) query results after which the remaining cases of a run are skipped
+const MAX_DEAD: u64 = 40;
 const MEM_MB: u64 = 1024;
 
 fn request(mode: &str, targets: &[ObjectId], doc: &Document) -> String {
@@ -610,40 +614,56 @@ struct Pending { case_id: u64, stream: String, req: String, doc_targets: Vec<Obj
 
 /// run a batch in the isolated worker; a dead worker (abort / timeout) is re-run field by field
 fn run_batch(c: &mut Ctx, batch: Vec<Pending>, docs: &[Document]) {
+    // in chunks: once many documents made the real code hang / abort (a broken lopdf), the rest of the run would only
+    // add timeouts — the remaining chunks are skipped and counted
+    let mut batch = batch; let mut docs: Vec<Document> = docs.to_vec();
+    while !batch.is_empty() {
+        let k = batch.len().min(48);
+        let rest = batch.split_off(k); let rest_docs = docs.split_off(k);
+        let dead_so_far: u64 = c.counters.iter().filter(|(k, _)| k.starts_with("dead.")).map(|(_, v)| *v).sum();
+        if dead_so_far >= MAX_DEAD { c.count_n("isolated.cases_skipped_after_many_dead", batch.len() as u64); }
+        else { run_chunk(c, batch, &docs); }
+        batch = rest; docs = rest_docs;
+    }
+}
+
+fn run_chunk(c: &mut Ctx, batch: Vec<Pending>, docs: &[Document]) {
     if batch.is_empty() { return; }
     let lines: Vec<String> = batch.iter().map(|p| p.req.clone()).collect();
     let single = lines.iter().all(|l| l.split(' ').nth(1).map(|m| m.starts_with("one=")).unwrap_or(false));
-    let replies = crate::iso::run_isolated("C13", &lines, if single { TIMEOUT_MS } else { TIMEOUT_MS * 4 }, MEM_MB);
+    let replies = crate::iso::run_isolated("C13", &lines, if single { TIMEOUT_MS } else { TIMEOUT_MS * 2 }, MEM_MB);
     for ((p, reply), doc) in batch.into_iter().zip(replies.into_iter()).zip(docs.iter()) {
         c.cur = p.case_id;
         let mode = p.req.split(' ').nth(1).unwrap_or("all").to_string();
         let mut fields: Vec<(String, String)> = vec![];
         let dead = reply == "timeout" || reply.starts_with("abort") || reply.is_empty();
+        let dead_value = |r: &str| if r == "timeout" { "hang".to_string() } else { format!("abort:{}", r.trim_start_matches("abort").trim().replace(' ', "_")) };
         if dead && mode.starts_with("one=") {
-            fields.push((mode[4..].to_string(), format!("!{}", reply.replace(' ', "_"))));
+            fields.push((mode[4..].to_string(), dead_value(&reply)));
+        } else if dead && c.counters.get("isolated.rerun_per_field").copied().unwrap_or(0) >= MAX_LOCALISED {
+            // the real code hung / aborted on this document; enough documents were localised field by field already
+            c.count("isolated.dead_not_localised");
+            fields.push(("all".into(), dead_value(&reply)));
         } else if dead {
+            // localise: re-run field by field (in groups, stopping once three dead queries are known)
             c.count("isolated.rerun_per_field");
-            let names: Vec<String> = if let Some(f) = mode.strip_prefix("one=") { vec![f.to_string()] }
-                else { field_names(&p.doc_targets).into_iter().filter(|f| mode != "nowalk" || !is_walker(f)).collect() };
-            let reqs: Vec<String> = names.iter().map(|f| with_mode(&p.req, &format!("one={}", f))).collect();
-            let rs = crate::iso::run_isolated("C13", &reqs, TIMEOUT_MS, MEM_MB);
-            for (f, r) in names.iter().zip(rs.iter()) {
-                let v = if let Some(v) = r.strip_prefix(&format!("{}=", f)) { v.to_string() } else { format!("!{}", r.replace(' ', "_")) };
-                fields.push((f.clone(), v));
+            let names: Vec<String> = field_names(&p.doc_targets).into_iter().filter(|f| mode != "nowalk" || !is_walker(f)).collect();
+            let mut n_dead = 0;
+            for group in names.chunks(6) {
+                if n_dead >= 3 { for f in group { fields.push((f.clone(), "skipped".into())); } continue; }
+                let reqs: Vec<String> = group.iter().map(|f| with_mode(&p.req, &format!("one={}", f))).collect();
+                let rs = crate::iso::run_isolated("C13", &reqs, TIMEOUT_MS, MEM_MB);
+                for (f, r) in group.iter().zip(rs.iter()) {
+                    let v = if let Some(v) = r.strip_prefix(&format!("{}=", f)) { v.to_string() } else { n_dead += 1; dead_value(r) };
+                    fields.push((f.clone(), v));
+                }
             }
+            if n_dead == 0 { fields.push(("all".into(), dead_value(&reply))); }
         } else {
             for tok in reply.split(' ') { if let Some((f, v)) = tok.split_once('=') { fields.push((f.to_string(), v.to_string())); } }
         }
-        // canonicalise dead-worker outcomes
-        let outl_div = fields.iter().any(|(f, v)| f == "outl" && v.starts_with('!'));
-        for (f, v) in fields.iter_mut() {
-            if v.starts_with('!') {
-                let raw = v[1..].to_string();
-                *v = if f == "outl" || f == "dests" || f.starts_with("nd:") || (f == "toc" && (outl_div || p.hazard.cyclic())) { "diverge".into() }
-                     else if raw.starts_with("abort") && (f == "pages" || f == "iter" || f == "toc" || f == "text" || f.starts_with("op:")) { "panic@abort:alloc".into() }
-                     else { format!("dead:{}", raw) };
-                c.count(&format!("dead.{}.{}", f.split(':').next().unwrap(), raw.split('_').next().unwrap_or("")));
-            }
+        for (f, v) in fields.iter() {
+            if v == "hang" || v.starts_with("abort:") { c.count(&format!("dead.{}.{}", f.split(':').next().unwrap(), v.split(':').next().unwrap())); }
         }
         // correspondence (the `text` field is oracle-only: content parser / filters / CMaps are other properties)
         let corr_reply: String = fields.iter().filter(|(f, _)| f != "text").map(|(f, v)| format!("{}={}", f, v)).collect::<Vec<_>>().join(" ");
@@ -651,21 +671,21 @@ fn run_batch(c: &mut Ctx, batch: Vec<Pending>, docs: &[Document]) {
         // oracle: every query returns a value or an error
         for (f, v) in &fields {
             let q = f.split(':').next().unwrap();
-            let class = if v == "ok" || v.starts_with("ok,") { "ok" } else if v == "err" { "err" } else if v.starts_with("panic@") { "panic" } else if v == "diverge" { "diverge" } else { "other" };
+            let class = if v == "ok" || v.starts_with("ok,") { "ok" } else if v == "err" { "err" } else if v.starts_with("panic@") { "panic" }
+                else if v == "hang" { "hang" } else if v.starts_with("abort:") { "abort" } else if v == "skipped" { "skipped" } else { "other" };
             c.count(&format!("outcome.{}.{}", q, class));
             if q == "xt" { c.count(if v == "ok,?" { "xt.outside_composed_model" } else if v.starts_with("ok,") { "xt.text_compared" } else if v == "ok" { "xt.empty_text_compared" } else { "xt.error_compared" }); }
-            if class == "ok" || class == "err" { continue; }
+            if class == "ok" || class == "err" || class == "skipped" { continue; }
             let qname = match q { "outl" => "get_outlines", "toc" => "get_toc", "dests" | "nd" => "get_named_destinations", "pages" => "get_pages", "iter" => "page_iter.collect",
-                "op" => "get_object_page", "text" => "extract_text", "pi" => "get_page_images", x => x };
+                "op" => "get_object_page", "text" | "xt" => "extract_text", "pi" => "get_page_images", "go" => "get_object", "gom" => "get_object_mut", "gd" => "get_dictionary",
+                "pc" => "get_page_contents", "pcc" => "get_page_content", "pr" => "get_page_resources", "pf" => "get_page_fonts", "pa" => "get_page_annotations",
+                "fe" => "get_font_encoding", "cat" => "catalog", "enc" => "get_encrypted", "cf" => "get_crypt_filters", "all" => "some-query", x => x };
+            // a query that does not come back (timeout in the isolated worker) or kills the process is ALWAYS an oracle failure
             let sig = if let Some(site) = v.strip_prefix("panic@") {
-                if site == "abort:alloc" { format!("abort:alloc:{}", qname) }
-                else if site.starts_with("src/") { format!("panic@{}:{}", site, site_text(site)) } else { format!("panic@{}", site) }
-            } else if v == "diverge" {
-                let kind = if q == "dests" || q == "nd" { if p.hazard.kids_cycle { "kids-cycle" } else if p.hazard.explosive { "explosive-dag" } else { "unexplained" } }
-                    else if p.hazard.next_cycle { "next-cycle" } else if p.hazard.first_cycle { "first-cycle" } else if p.hazard.kids_cycle { "kids-cycle" }
-                    else if p.hazard.explosive { "explosive-dag" } else { "unexplained" };
-                format!("hang:{}:{}", qname, kind)
-            } else { format!("dead:{}:{}", qname, v) };
+                if site.starts_with("src/") { format!("panic@{}:{}", site, site_text(site)) } else { format!("panic@{}", site) }
+            } else if v == "hang" { format!("hang:{}", qname) }
+              else if v.starts_with("abort:") { format!("abort:{}", qname) }
+              else { format!("dead:{}:{}", qname, v) };
             c.oracle_fail(&sig, &format!("{} did not return a value or an error: {}", qname, v),
                 json!({"stream": p.stream, "field": f, "outcome": v, "request": if p.req.len() < 3000 { p.req.clone() } else { format!("{}…", &p.req[..3000]) }}));
         }
@@ -687,7 +707,7 @@ pub fn run(c: &mut Ctx) {
     c.rule = "documents = well-formed generator output (page tree, Contents direct/array/chained, Resources direct/by reference/inherited, \
 fonts with every Encoding branch, image XObjects, Annots, outlines with Dest/A/named destinations, name trees, Encrypt/CF) with 0-12 typed-chaos \
 mutations (a key the queries read re-bound to a value of a random kind or to a reference, possibly forming cycles); every query runs on the real \
-Document in the isolated worker on 3-5 target ids; non-trivial = every case (distinct by request text); every walker runs on every document (cyclic Next / First / Kids included: seen-sets)".into();
+Document in the isolated worker on 3-5 target ids; non-trivial = every case (distinct by request text); every walker runs on every document (cyclic Next / First / Kids included: seen-sets); stream `refchains`: for each of 34 keys a query looks up x 24 chain shapes (acyclic 1..5 and 126..129 hops, dangling, self loop, ring 2..4, rho-shape tail 1..5 + ring 1..4, chains ending in an array / name / array of references) the value of the key — or an item of its array — is put behind a chain of bare reference objects; a query that does not return in the isolated worker is an oracle failure hang:<query> / abort:<query> with the document as replay".into();
     let _ = guard(|| ());
     // ---------------- well-formed documents
     let mut batch = vec![]; let mut docs = vec![];
@@ -744,7 +764,121 @@ Document in the isolated worker on 3-5 target ids; non-trivial = every case (dis
         batch.push(Pending { case_id: c.cur, stream: "chains".into(), req, doc_targets: targets, hazard: hz }); docs.push(doc);
     }
     run_batch(c, batch, &docs);
+    refchain_stream(c);
     known_streams(c);
+}
+
+
+// ------------------------------------------------------------------------------------------
+// reference chains of every shape at every place a query dereferences
+// ------------------------------------------------------------------------------------------
+
+/// keys whose value some query looks up, dereferences or follows
+const DEREF_KEYS: [&str; 34] = ["Root", "Pages", "Kids", "Count", "Parent", "Resources", "Font", "XObject", "Encoding", "ToUnicode", "Contents", "Annots",
+    "Outlines", "First", "Next", "Dest", "A", "D", "S", "Title", "Names", "Dests", "Encrypt", "CF", "Type", "Subtype", "ColorSpace", "Width", "Height",
+    "BitsPerComponent", "Filter", "Length", "Last", "Prev"];
+
+#[derive(Clone, Copy, Debug)]
+enum Shape { Chain(usize), Dangling(usize), SelfLoop, Ring(usize), Rho(usize, usize), ToArray(usize), ToName(usize), ToRefArray(usize) }
+const SHAPES: [Shape; 24] = [Shape::Chain(1), Shape::Chain(2), Shape::Chain(3), Shape::Chain(5), Shape::Chain(126), Shape::Chain(127), Shape::Chain(128), Shape::Chain(129),
+    Shape::Dangling(1), Shape::Dangling(3), Shape::SelfLoop, Shape::Ring(2), Shape::Ring(3), Shape::Ring(4),
+    Shape::Rho(1, 1), Shape::Rho(1, 2), Shape::Rho(2, 3), Shape::Rho(3, 1), Shape::Rho(5, 4), Shape::Rho(4, 2),
+    Shape::ToArray(1), Shape::ToArray(3), Shape::ToName(2), Shape::ToRefArray(2)];
+
+/// replace `slot` (a value bound to a key, or an item of the array bound to it) by a reference into a chain of bare
+/// reference objects of the given shape; acyclic chains end in the original value (moved into an object of its own
+/// when it was direct)
+fn chain_value(r: &mut Rng, doc: &mut Document, old: Object, shape: Shape) -> Object {
+    let mut next = doc.objects.keys().map(|k| k.0).max().unwrap_or(0) + 1;
+    let mut fresh = |doc: &mut Document, o: Object| -> ObjectId { let id = (next, 0); next += 1; doc.objects.insert(id, o); id };
+    // link(ids): ids[i] -> ids[i+1]
+    let target: ObjectId = match &old { Object::Reference(t) => *t, o => fresh(doc, o.clone()) };
+    let mk_ids = |doc: &mut Document, n: usize, fresh: &mut dyn FnMut(&mut Document, Object) -> ObjectId| -> Vec<ObjectId> { (0..n).map(|_| fresh(doc, Object::Null)).collect() };
+    match shape {
+        Shape::Chain(l) | Shape::Dangling(l) => {
+            let ids = mk_ids(doc, l, &mut fresh);
+            for i in 0..l { let to = if i + 1 < l { ids[i + 1] } else if matches!(shape, Shape::Chain(_)) { target } else { (9999, 0) }; doc.objects.insert(ids[i], rf(to)); }
+            rf(ids[0])
+        }
+        Shape::SelfLoop => { let ids = mk_ids(doc, 1, &mut fresh); doc.objects.insert(ids[0], rf(ids[0])); rf(ids[0]) }
+        Shape::Ring(m) => { let ids = mk_ids(doc, m, &mut fresh); for i in 0..m { doc.objects.insert(ids[i], rf(ids[(i + 1) % m])); } rf(ids[0]) }
+        Shape::Rho(t, m) => {
+            let tail = mk_ids(doc, t, &mut fresh); let ring = mk_ids(doc, m, &mut fresh);
+            for i in 0..t { doc.objects.insert(tail[i], rf(if i + 1 < t { tail[i + 1] } else { ring[0] })); }
+            for i in 0..m { doc.objects.insert(ring[i], rf(ring[(i + 1) % m])); }
+            rf(tail[0])
+        }
+        Shape::ToArray(l) | Shape::ToName(l) | Shape::ToRefArray(l) => {
+            let ids = mk_ids(doc, l, &mut fresh);
+            let end = match shape { Shape::ToArray(_) => Object::Array(if r.chance(1, 2) { vec![] } else { vec![rf(target), name("Fit")] }), Shape::ToName(_) => name(*r.pick(&NAMES)),
+                _ => Object::Array(vec![rf(ids[0]), rf(target)]) };
+            for i in 0..l { doc.objects.insert(ids[i], if i + 1 < l { rf(ids[i + 1]) } else { end.clone() }); }
+            rf(ids[0])
+        }
+    }
+}
+
+/// put a chain of the given shape behind `key` somewhere in the document; returns the id owning the slot (None = trailer / key absent)
+fn chainify(r: &mut Rng, doc: &mut Document, key: &str, shape: Shape) -> Option<Option<ObjectId>> {
+    let kb = key.as_bytes();
+    if doc.trailer.has(kb) && (key == "Root" || key == "Encrypt" || r.chance(1, 4)) {
+        let old = doc.trailer.get(kb).unwrap().clone();
+        let v = chain_value(r, doc, old, shape);
+        doc.trailer.set(key, v);
+        return Some(None);
+    }
+    // slots: (object id, pre-order index of the dictionary having the key)
+    let mut slots: Vec<(ObjectId, usize)> = vec![];
+    for (id, o) in doc.objects.iter() { let mut fl = vec![]; dict_flags(o, 0, kb, &mut fl); for (i, f) in fl.iter().enumerate() { if *f { slots.push((*id, i)); } } }
+    if slots.is_empty() { return None; }
+    let (id, idx) = *r.pick(&slots);
+    let mut old: Option<Object> = None;
+    { let o = doc.objects.get_mut(&id).unwrap(); with_nth_dict(o, 0, &mut 0, idx, &mut |d| { old = d.get(kb).ok().cloned(); }); }
+    let old = old?;
+    // half of the time an item of an array value is replaced instead of the value itself
+    let new = match &old {
+        Object::Array(items) if !items.is_empty() && r.chance(1, 2) => {
+            let k = r.usize(items.len());
+            let mut items = items.clone();
+            let it = items[k].clone();
+            items[k] = chain_value(r, doc, it, shape);
+            Object::Array(items)
+        }
+        _ => chain_value(r, doc, old.clone(), shape),
+    };
+    let mut new = Some(new);
+    let o = doc.objects.get_mut(&id).unwrap();
+    with_nth_dict(o, 0, &mut 0, idx, &mut |d| { if let Some(v) = new.take() { d.set(key, v); } });
+    Some(Some(id))
+}
+
+fn refchain_stream(c: &mut Ctx) {
+    let mut batch = vec![]; let mut docs = vec![];
+    let combos = (DEREF_KEYS.len() * SHAPES.len()) as u64;
+    for i in 0..c.n(combos, combos * 5) {
+        let Some(mut r) = c.case("refchains", i) else { continue };
+        let key = DEREF_KEYS[(i as usize) % DEREF_KEYS.len()];
+        let shape = SHAPES[((i as usize) / DEREF_KEYS.len()) % SHAPES.len()];
+        // a well-formed document that has the key
+        let mut found = None;
+        for _ in 0..40 {
+            let (mut doc, leaves) = gen_valid(&mut r);
+            if let Some(owner) = chainify(&mut r, &mut doc, key, shape) { found = Some((doc, leaves, owner)); break; }
+        }
+        let Some((mut doc, leaves, owner)) = found else { c.count("refchains.key_absent"); continue };
+        // later rounds: a second chain elsewhere and some typed chaos on top
+        if i >= combos { if r.chance(1, 2) { let k2 = *r.pick(&DEREF_KEYS); let s2 = *r.pick(&SHAPES); let _ = chainify(&mut r, &mut doc, k2, s2); }
+                         if r.chance(1, 3) { let n = 1 + r.usize(3); chaos(&mut r, &mut doc, n, c); } }
+        let mut targets = pick_targets(&mut r, &doc, &leaves);
+        if let Some(o) = owner { targets.insert(0, o); targets.truncate(5); targets.dedup(); }
+        let hz = analyse(&doc, &targets);
+        let req = request("all", &targets, &doc);
+        c.nontrivial(&req);
+        c.count(&format!("refchains.key.{}", key)); c.count(&format!("refchains.shape.{}", format!("{:?}", shape).split('(').next().unwrap()));
+        if i < 2 { c.sample(json!({"stream": "refchains", "key": key, "shape": format!("{:?}", shape), "request": if req.len() < 600 { req.clone() } else { format!("{}…", &req[..600]) }})); }
+        batch.push(Pending { case_id: c.cur, stream: "refchains".into(), req, doc_targets: targets, hazard: hz }); docs.push(doc);
+    }
+    run_batch(c, batch, &docs);
 }
 
 // ------------------------------------------------------------------------------------------
@@ -816,9 +950,9 @@ fn known_streams(c: &mut Ctx) {
         let targets = vec![(15, 0)];
         let hz = analyse(&doc, &targets);
         let fields: Vec<&str> = if kind < 4 || (6..=9).contains(&kind) { vec!["outl", "toc"] } else if kind == 4 || kind == 10 { vec!["dests", "nd:15_0", "outl"] } else { vec!["dests", "toc"] };
-        for f in fields {
+        for (fi, f) in fields.into_iter().enumerate() {
             let req = request(&format!("one={}", f), &targets, &doc);
-            if f == "outl" || f == "dests" { c.nontrivial(&req); } c.count(&format!("cyclic.kind{}", kind));
+            if fi == 0 { c.nontrivial(&req); } c.count(&format!("cyclic.kind{}", kind));
             batch.push(Pending { case_id: c.cur, stream: "cyclic".into(), req, doc_targets: targets.clone(), hazard: hz.clone() }); docs.push(doc.clone());
         }
     }
@@ -840,7 +974,7 @@ fn known_streams(c: &mut Ctx) {
         let hz = analyse(&doc, &targets);
         for f in ["toc", "outl"] {
             let req = request(&format!("one={}", f), &targets, &doc);
-            c.nontrivial(&req); c.count("toc_titles.cases");
+            if f == "toc" { c.nontrivial(&req); } c.count("toc_titles.cases");
             batch.push(Pending { case_id: c.cur, stream: "toc_titles".into(), req, doc_targets: targets.clone(), hazard: hz.clone() }); docs.push(doc.clone());
         }
     }
@@ -865,7 +999,7 @@ fn known_streams(c: &mut Ctx) {
         let hz = analyse(&doc, &targets);
         for f in ["pages", "iter", "text"] {
             let req = request(&format!("one={}", f), &targets, &doc);
-            c.nontrivial(&req); c.count("pagecycle.cases");
+            if f == "pages" { c.nontrivial(&req); } c.count("pagecycle.cases");
             batch.push(Pending { case_id: c.cur, stream: "pagecycle".into(), req, doc_targets: targets.clone(), hazard: hz.clone() }); docs.push(doc.clone());
         }
     }
@@ -921,6 +1055,6 @@ fn known_streams(c: &mut Ctx) {
     for (k, (fid, field, expect, what, _req)) in meta.into_iter().enumerate() {
         let got = c.corr.get(before + k).map(|x| x.impl_reply.clone()).unwrap_or_default();
         let v = got.strip_prefix(&format!("{}=", field)).unwrap_or(&got).to_string();
-        c.witness(&fid, v.starts_with(&expect), &format!("{} — observed {}", what, v));
+        c.witness(&fid, v.starts_with(&expect) || (expect == "diverge" && (v == "hang" || v.starts_with("abort:"))), &format!("{} — observed {}", what, v));
     }
 }
